@@ -432,12 +432,14 @@ def first_divergence(judge: Judge | None, kind, seq, tr, mtr, strc, phase, recor
     return None, None
 
 
-def random_phase(chk: Check, kind, fx, judge: Judge, nseq: int, depth: int, seed: int):
+def random_phase(chk: Check, kind, fx, judge: Judge, nseq: int, depth: int, seed: int, seqs=None, label='random'):
     U = 6
     univ = list(range(U))
     gidx = list(range(-U - 1, U + 1))
     rng = random.Random(f'{seed}:{kind}')
-    seqs = [[random_op(rng, kind, U) for _ in range(depth)] for _ in range(nseq)]
+    if seqs is None:
+        seqs = [[random_op(rng, kind, U) for _ in range(depth)] for _ in range(nseq)]
+    nseq = len(seqs)
     rounds = 0
     steps = 0
     while seqs and rounds < 6:
@@ -468,8 +470,28 @@ def random_phase(chk: Check, kind, fx, judge: Judge, nseq: int, depth: int, seed
                 if len(rest) > k:
                     again.append(rest)
         seqs = again
-    chk.notes.setdefault('random', {})[kind] = dict(sequences=nseq, depth=depth, universe=U, rounds=rounds,
+    chk.notes.setdefault(label, {})[kind] = dict(sequences=nseq, depth=depth, universe=U, rounds=rounds,
                                                     steps_compared=steps)
+
+
+def keysort_cases(chk: Check, kind: str):
+    """sort(key=..., reverse=...) with keys that produce ties: the container must end up in the order the plain
+    list's own (stable) sort gives, and index() must agree (implementation against the list specification)."""
+    import itertools
+    cases = [[list(p), k, r] for n in (3, 4) for p in itertools.permutations(range(4 if kind == 'qset' else 6)[:n + 1], n)
+             for k in ('mod2', 'const', 'div2', 'neg') for r in (0, 1)]
+    if kind == 'Predicates':
+        # one predicate per symbol only (2k and 2k+1 conflict)
+        cases = [c for c in cases if len({x // 2 for x in c[0]}) == len(c[0])]
+    out = probe_json('probe_containers.py', stdin=json.dumps(dict(kind=kind, universe=list(range(6)), gidx=[0], mode='keysort', cases=cases)),
+                     timeout=600)
+    for (elems, k, r), (got, want, idx, widx) in zip(cases, out):
+        chk.case([kind, 'keysort', elems, k, r], nontrivial=True)
+        chk.count('op:' + kind, 'sort(key,reverse)')
+        if got != want or idx != widx:
+            chk.violation(f'{kind}.sort/key-reverse-order',
+                          f'{kind}({elems}).sort(key={k}, reverse={bool(r)}) gives {got} (index {idx}); a plain list gives {want} (index {widx})',
+                          dict(kind='keysort', container=kind, elements=elems, key=k, reverse=bool(r), observed=got, expected=want))
 
 
 def shrink(kind, fx, univ, gidx, seq, key, max_rounds=10):
@@ -536,6 +558,19 @@ def run(args) -> int:
         judge = exhaustive(chk, kind, fx[kind], depth)
         t1 = time.time()
         random_phase(chk, kind, fx[kind], judge, nrand, rdepth, args.seed)
+        if kind == 'Predicates':
+            # slice assignment with several arriving predicates, some conflicting with a member that leaves and some
+            # with one that stays (value n = Predicate(n // 2, 0, 1 + n % 2): 2k and 2k+1 share a symbol)
+            import itertools
+            tseqs = []
+            for init in ([0, 2, 4], [1, 2, 5], [0, 3, 4], [0, 2]):
+                for i, j in ((0, 2), (1, 3), (0, 3), (0, 1), (2, 3), (1, 2)):
+                    vals = list(itertools.permutations(range(6), 2)) + list(itertools.permutations(range(6), 3))[::3]
+                    for vs in vals:
+                        tseqs.append([['extend', list(init)], ['setslice', i, j, None, list(vs)]])
+            random_phase(chk, kind, fx[kind], judge, 0, 2, args.seed, seqs=tseqs, label='targeted-slice-conflicts')
+        if kind in ('qset', 'Predicates'):
+            keysort_cases(chk, kind)
         chk.notes.setdefault('timing_s', {})[kind] = dict(exhaustive=round(t1 - t0, 1),
                                                           random=round(time.time() - t1, 1))
     chk.exhaustive = False
